@@ -201,8 +201,14 @@ DYield(src) == IF src.k = "same" THEN D ELSE IF src.k = "other" THEN NormPairs(s
 DSrcOk(src) == /\ src.k = "other" => PairsOk(src.kvs)
                /\ src.k = "kwargs" => \A i \in DOMAIN src.kvs : IsStr(src.kvs[i][1])
 
+RECURSIVE ProxDict(_, _)
 ProxDict(cur, op) ==
-    CASE op.m = "setitem" ->
+    CASE op.m = "update_kw" ->
+            \* d.update(src, **kw): the positional argument first, then the keywords one at a time
+            LET first == ProxDict(cur, [m |-> "update", src |-> op.src]) IN
+            IF ~first.ok THEN first
+            ELSE ProxDict(first.new, [m |-> "update", src |-> [k |-> "kwargs", kvs |-> op.kw]])
+      [] op.m = "setitem" ->
             IF ~PairOk(<<op.k, op.v>>) THEN Raise(cur, "ValueError")
             ELSE RefDict(cur, [op EXCEPT !.k = NormK(op.k).v, !.v = NormV(op.v).v])
       [] op.m = "setdefault" ->
@@ -226,10 +232,12 @@ ProxDict(cur, op) ==
 DRefArgs(op) ==
     CASE op.m \in {"setitem", "setdefault"} -> [op EXCEPT !.k = NormK(op.k).v, !.v = NormV(op.v).v]
       [] op.m \in {"update", "ior"} -> op @@ [kvs |-> IF op.src.k = "same" THEN RD ELSE NormPairs(DYield(op.src))]
+      [] op.m = "update_kw" -> [m |-> "update", kvs |-> (IF op.src.k = "same" THEN RD ELSE NormPairs(DYield(op.src))) \o NormPairs(op.kw)]
       [] OTHER -> op
 DAcceptable(op) ==
     CASE op.m \in {"setitem", "setdefault"} -> PairOk(<<op.k, op.v>>)
       [] op.m \in {"update", "ior"} -> op.src.k = "same" \/ PairsOk(DYield(op.src))
+      [] op.m = "update_kw" -> (op.src.k = "same" \/ PairsOk(DYield(op.src))) /\ PairsOk(op.kw)
       [] OTHER -> TRUE
 
 DictStep(op) ==
@@ -272,6 +280,9 @@ DistinctKeys(p) == \A i, j \in DOMAIN p : i # j => p[i][1] # p[j][1]
 DictOps ==
     {[m |-> mm, k |-> k, v |-> v] : mm \in {"setitem", "setdefault", "popd"}, k \in KeyCands, v \in ValCands}
     \cup {[m |-> mm, src |-> s] : mm \in {"update", "ior"}, s \in {x \in DSrcs : x.k = "pairs" \/ DistinctKeys(x.kvs)}}
+    \cup {[m |-> "update_kw", src |-> s, kw |-> p] :
+              s \in {x \in DSrcs : x.k \in {"same", "dict", "other"} /\ Len(x.kvs) <= 1},
+              p \in {q \in Pairs2 : Len(q) = 1 /\ IsStr(q[1][1])}}
     \cup {[m |-> mm, k |-> k] : mm \in {"pop", "delitem", "get", "contains"}, k \in KeyCands}
     \cup {[m |-> mm] : mm \in {"popitem", "clear", "copy", "keys", "len"}}
 
